@@ -1075,7 +1075,7 @@ def dict_roundtrip_oracle(ctx, case):
     if c1 != c2:
       ctx.violation('split-merge-dict-attribute', f'merge(split(m)) differs from m for a module holding a plain dict: {_first_diff(c2, c1)}', dict(where, got=c2, want=c1))
       return
-    nnx.update(root, nnx.state(root))
+    nnx.update(root, nnx.state(root, nnx.Variable))  # Variables only: a raw array inside a dict cannot be `update`d (C03)
     after = canon_id(obs.snapshot([root]), n0)
     if after != before:
       ctx.violation('update-state-dict-attribute', f'update(m, state(m)) changes m for a module holding a plain dict: {_first_diff(after, before)}', dict(where, got=after, want=before))
